@@ -62,7 +62,7 @@ def main():
             "engine": "sx",
             "level_claimed": {"category": "model_checking", "text": text, "design_ref": ref},
             "level_note": "bounded: holds for every value of the symbolic inputs within the stated structural bounds (shape families, candidate count, Nmax); trusted: z3 5.1 unsat answers, CPython, pydantic/pandas/networkx run concretely, the proxy layer (cross-validated per path against the unpatched code), stub contracts for random/numpy.random",
-            "technique": "solver-based bounded symbolic execution of the real Python code (z3 via proxy values; CrossHair for small int/str units)",
+            "technique": "solver-based bounded symbolic execution of the real Python code: proxy values over z3 terms, every branch and assertion a z3 query, exhaustive path enumeration within stated structural bounds, counterexamples replayed on the unpatched code",
         })
     na = [{"property_id": p, "reason": NOT_APPLICABLE.get(p, "check not built yet in this round (planned, see DESIGN.md §10)")} for p in props if p not in CHECKS]
     man = {
